@@ -453,16 +453,6 @@ fn clause_contains_write(clause: &ast::Clause) -> bool {
     }
 }
 
-unsafe fn db_handle_mut<'a>(db: *mut ndb_db_t) -> ApiResult<&'a mut DbHandle> {
-    if db.is_null() {
-        return Err(ApiError::null_pointer("db"));
-    }
-    Ok(unsafe {
-        // SAFETY: pointer validity is ensured by FFI lifecycle; all handles are allocated by this crate.
-        &mut *db.cast::<DbHandle>()
-    })
-}
-
 unsafe fn db_handle_ref<'a>(db: *mut ndb_db_t) -> ApiResult<&'a DbHandle> {
     if db.is_null() {
         return Err(ApiError::null_pointer("db"));
@@ -477,13 +467,6 @@ fn db_ref_from_handle(handle: &DbHandle) -> ApiResult<&core::Db> {
     handle
         .db
         .as_ref()
-        .ok_or_else(|| ApiError::execution("database handle has been closed"))
-}
-
-fn db_ref_from_handle_mut(handle: &mut DbHandle) -> ApiResult<&mut core::Db> {
-    handle
-        .db
-        .as_mut()
         .ok_or_else(|| ApiError::execution("database handle has been closed"))
 }
 
@@ -858,17 +841,21 @@ pub extern "C" fn ndb_close(db: *mut ndb_db_t) -> c_int {
         if db.is_null() {
             return Err(ApiError::null_pointer("db"));
         }
-        let boxed = unsafe {
-            // SAFETY: pointer validity is guaranteed by lifecycle; function takes ownership.
-            Box::from_raw(db.cast::<DbHandle>())
-        };
-        if boxed.active_txn_count.load(Ordering::SeqCst) > 0 {
-            let raw = Box::into_raw(boxed);
-            let _ = raw;
+        // Look before taking ownership: re-boxing the handle while a transaction still borrows the
+        // database inside it would invalidate that borrow even if the box is leaked again.
+        let busy = unsafe { db_handle_ref(db)? }
+            .active_txn_count
+            .load(Ordering::SeqCst)
+            > 0;
+        if busy {
             return Err(ApiError::busy(
                 "cannot close database while write transaction is active",
             ));
         }
+        let boxed = unsafe {
+            // SAFETY: pointer validity is guaranteed by lifecycle; function takes ownership.
+            Box::from_raw(db.cast::<DbHandle>())
+        };
         if let Some(real_db) = boxed.db {
             real_db.close().map_err(ApiError::from_core)?;
         }
@@ -996,8 +983,11 @@ pub extern "C" fn ndb_begin_write(db: *mut ndb_db_t, out_txn: *mut *mut ndb_txn_
         if out_txn.is_null() {
             return Err(ApiError::null_pointer("out_txn"));
         }
-        let handle = unsafe { db_handle_mut(db)? };
-        let db_ref = db_ref_from_handle_mut(handle)?;
+        // Shared borrow: the transaction keeps referring to the database for its whole life, and
+        // other entry points look at the same handle meanwhile. Deriving it from `&mut DbHandle`
+        // would make each of those later accesses invalidate the transaction's reference.
+        let handle = unsafe { db_handle_ref(db)? };
+        let db_ref = db_ref_from_handle(handle)?;
         let txn = db_ref.begin_write();
         let txn_static: core::WriteTxn<'static> = unsafe {
             // SAFETY: lifecycle is enforced by retaining parent DB handle and active-txn gate on close.
